@@ -4,7 +4,7 @@ import itertools
 from hypothesis import given, seed
 
 from vlib import gen_cat, gen_pair, inventory, oracle_en as oe, runner
-from vlib.model_cat import canon, erase, from_json, jsonable, model_of, read, size, to_cat
+from vlib.model_cat import ORIGINS, canon, erase, from_json, jsonable, model_of, read, size, to_cat, to_cat_via
 from vlib.tape import Tape, tapes
 
 PROPERTY = 'C03'
@@ -20,13 +20,13 @@ SCHEMA_PATTERNS = [("a/b", "b"), ("b", "a\\b"), ("a/b", "b/c"), ("b/c", "a\\b"),
 
 
 @runner.guarded(PROPERTY)
-def check_pair(mx, my, info=None):
+def check_pair(mx, my, info=None, origins=('built', 'built')):
     from depccg.grammar import en
     fails = []
 
     def bad(key, msg):
         fails.append((f'{PROPERTY}/{key}', msg))
-    x, y = to_cat(mx), to_cat(my)
+    x, y = to_cat_via(mx, origins[0]), to_cat_via(my, origins[1])
     tag = f'({canon(mx)} , {canon(my)})'
     try:
         results = en.apply_binary_rules(x, y)
@@ -61,12 +61,13 @@ def check_pair(mx, my, info=None):
 
 
 def replay(case):
-    return check_pair(from_json(case['x']), from_json(case['y']))
+    return check_pair(from_json(case['x']), from_json(case['y']),
+                      origins=(case.get('origin_x', 'built'), case.get('origin_y', 'built')))
 
 
 def _do_pair(ctx, mx, my, cls, direct, extra=None):
     info = {'nres': 0}
-    fails = check_pair(mx, my, info)
+    fails = check_pair(mx, my, info, origins=((extra or {}).get('origin_x', 'built'), (extra or {}).get('origin_y', 'built')))
     nres = info['nres']
     case = {'x': jsonable(mx), 'y': jsonable(my)}
     if extra:
@@ -122,7 +123,8 @@ def build_case(data):
     elif t.chance(20):
         my = t.pick([oe.COMMA, gen_cat.A('.'), gen_cat.A('RRB'), gen_cat.A('RQU')])
         kinds = ['punct-right']
-    return mx, my, {'schema': [px, py], 'perturbations': kinds}
+    return mx, my, {'schema': [px, py], 'perturbations': kinds,
+                    'origin_x': ORIGINS[t.tail(0) % 4], 'origin_y': ORIGINS[t.tail(1) % 4]}
 
 
 def _shard(ctx, shard, nshards):
